@@ -185,6 +185,43 @@ fn pm_pair(plus: bool, b1: u64, b2: f64, primes: &[u64], edges_only: bool) -> Ta
             t.bad.push(b);
         }
     }
+    // Three prime factors (P-1 only): p1 is promised by stage 1 with the largest prime of its
+    // p1-1 in the LAST stage-1 block (just below B1), p by stage 2, q resistant. The answer must
+    // still multiply to n and separate both promised primes: the ring is shrunk between stages.
+    if !plus && !edges_only {
+        let below: Vec<u64> = primes.iter().cloned().filter(|&x| x < b1 && x > b1 / 2 && x > 3).rev().take(3).collect();
+        let ls3: Vec<u64> = {
+            let v: Vec<u64> = primes.iter().cloned().filter(|&l| l > b1 && (l as f64) <= 0.9 * b2rep).collect();
+            let n = v.len();
+            if n == 0 { vec![] } else { vec![v[0], v[n / 3], v[n / 2], v[n - 1]] }
+        };
+        for &tp in &below {
+            // p1 = s*tp + 1 with s even dividing the stage-1 exponent
+            let Some(p1) = (2..=400u64).step_by(2).filter(|&s| stage1_divides(s, b1)).map(|s| s * tp + 1).find(|&x| rm::is_prime_u64(x) && x != q) else { continue };
+            for &l in &ls3 {
+                let Some(p) = (2..=2000u64).step_by(2).filter(|&s| stage1_divides(s, b1)).map(|s| s * l + 1).find(|&x| rm::is_prime_u64(x) && x != q && x != p1) else { continue };
+                let n = Uint::from_digit(p1) * Uint::from_digit(p) * Uint::from_digit(q);
+                t.evals += 1;
+                t.promised += 1;
+                match guarded(|| pollard_pm1::pm1_impl(&n, b1, b2, Verbosity::Silent)) {
+                    Err(e) => t.bad.push((format!("method=pm1;what=panic;site={}", e.site), format!("pm1(n={}*{}*{}, B1={}, B2={:e}) panicked: {}", p1, p, q, b1, b2, e.short()))),
+                    Ok(None) => t.bad.push((format!("method=pm1;row={:e};what=missed-3-factors", b2rep), format!("pm1(n={}*{}*{}, B1={}, B2={:e}) returned None although {} is promised by stage 1 and {} by stage 2", p1, p, q, b1, b2, p1, p))),
+                    Ok(Some((fs, rest))) => {
+                        t.shapes += 1;
+                        let nw = rm::w_from(&n);
+                        let mut parts: Vec<W> = fs.iter().map(rm::w_from).collect();
+                        parts.push(rm::w_from(&rest));
+                        let prod = parts.iter().fold(W::ONE, |a, b| a * *b);
+                        if prod != nw || fs.iter().any(|x| rm::w_from(x) <= W::ONE) {
+                            t.bad.push(("method=pm1;what=bad-shape-3-factors".into(), format!("pm1(n={}*{}*{}, B1={}, B2={:e}) returned factors {:?} and cofactor {}: product is not n", p1, p, q, b1, b2, fs, rest)));
+                        } else if !parts.contains(&W::from_digit(p1)) || !parts.contains(&W::from_digit(p)) {
+                            t.bad.push(("method=pm1;what=no-split-3-factors".into(), format!("pm1(n={}*{}*{}, B1={}, B2={:e}) returned {:?} and {}: the two promised primes are not both separated", p1, p, q, b1, b2, fs, rest)));
+                        }
+                    }
+                }
+            }
+        }
+    }
     t
 }
 
